@@ -248,7 +248,9 @@ CASES = {
     "intersect": (r_select, lambda R, s, n, v: R.intersect(sub3(v))),
     "except_of": (r_select, lambda R, s, n, v: R.except_of(sub3(v))),
     "minus": (r_select, lambda R, s, n, v: R.minus(sub3(v))),
-    "replace_table": (r_select, lambda R, s, n, v: R.replace_table(Table("t"), Table(leaf(s, v, "n")))),
+    # (the new table's name stays concrete: later select()/join() calls hash the table, which would enumerate a
+    #  symbolic name; C16 covers symbolic names)
+    "replace_table": (r_select, lambda R, s, n, v: R.replace_table(Table("t"), Table("nw" + str(v)))),
     "as_": (r_select, lambda R, s, n, v: R.as_(leaf(s, v, "al"))),
     # dialect-specific (guarded by attribute presence)
     "distinct_on": (r_select, lambda R, s, n, v: R.distinct_on(leaf(s, v, "d"))),
